@@ -30,7 +30,7 @@ NOT_COVERED = ["repr() of attribute values and str.splitlines() are CPython's: t
 PREDICATE_SPEC = True
 RULE = ("all shapes up to N nodes (quick 5, thorough 6) x every start node, styles Ascii/Cont/ContRound/Double/custom equal-width, "
         "childiter in {list, reversed, sorted, filtering}, maxlevel in {None,0,1,2,3}, value modes {label, attribute, callable, "
-        "repr} with single-line, multi-line, empty, list and tuple values and missing attributes; random shapes up to 12/30 nodes; "
+        "repr} (a third of the cases on a RenderTree object whose earlier iteration was abandoned) with single-line, multi-line, empty, list and tuple values and missing attributes; random shapes up to 12/30 nodes; "
         "repr assembly for Node (two separators), AnyNode, SymlinkNode with public/private attributes. Distinct = distinct case; "
         "non-trivial = start subtree >= 3 nodes or a repr case with >= 2 attributes.")
 STYLES = ["AsciiStyle", "ContStyle", "ContRoundStyle", "DoubleStyle", ["|  ", "+- ", "`- "], ["¦", "├", "└"]]
@@ -67,12 +67,18 @@ def mk(rng, t, start):
          "defaults": rng.random() < 0.3, "style_instance": rng.random() < 0.7}
     if st == "ContStyle" and rng.random() < 0.3:
         c["default_style"] = True
+    if rng.random() < 0.35:
+        # the same RenderTree object was used before and that use was abandoned (loop left early, next() a few times,
+        # a user callable raising inside by_attr): the rendering observed afterwards must be unaffected
+        n = gen.tree_size(t)
+        c["prior"] = [{"kind": rng.choice(["break", "break", "raise", "next"]), "k": rng.randrange(1, n + 2)}
+                      for _ in range(rng.choice([1, 1, 2]))]
     return c
 
 
 def repr_case(rng):
     kind = rng.choice(["node", "anynode", "symlink"])
-    keys = rng.sample(["b", "a", "zeta", "_hidden", "x1", "Name", "name2"], rng.randrange(0, 5))
+    keys = rng.sample(["b", "a", "zeta", "_hidden", "x1", "Name", "name2", "n", "nam", "me", "targe", "t", "targets"], rng.randrange(0, 5))
     vals = [rng.choice(["1", "'s'", "None", "[1, 2]", "2.5", "{'k': 1}", "'multi\\nline'"]) for _ in keys]
     attr_src = [[k, v] for k, v in zip(keys, vals)]
     import ast
